@@ -104,6 +104,15 @@ CLAIMS = {
         "both sibling sites (parser.h, simd_skip.h) satisfy it; the key node is told it owns the buffer exactly when one was allocated; a decode error frees the buffer. NOT decided: the merge semantics."),
   note='Trusted: clang 14 front end; C11 callee summaries; parseStringInplace contract.',
   design='5/C20'),
+ 'C05': dict(
+  category='proof',
+  technique='exact table verification (E5); exhaustive path enumeration with wrap-aware interval sets over handle_unicode_codepoint (E3); evaluation of codepoint_to_utf8 against RFC 3629; must-dominance for error classes (E2)',
+  text=("Decides: (a) kEscapedMap maps exactly the eight escapes, and for the four (offset, digit) lookups bound from hex_to_u32_nocheck's data flow the hex table holds hex(b)<<shift or 0xFFFFFFFF for all 256 bytes; "
+        "(b) on every path of handle_unicode_codepoint the value handed to codepoint_to_utf8 is never in [0xD800,0xDFFF] and a combined pair always lies in [0x10000,0x10FFFF] (value sets derived from the verified table, refined through the branch conditions); "
+        "(c) codepoint_to_utf8 equals UTF-8 on every range boundary +-1 and a stride of all scalar values (every 7th in the thorough tier) and returns 0 above U+10FFFF; "
+        "(d) each error store in parseStringInplace is dominated by the condition of its class. NOT decided: SIMD block classification and the in-place copy loop across alignments."),
+  note='Trusted: clang 14 front end; Python UTF-8 codec as oracle; loop-freeness of handle_unicode_codepoint (a loop would be exit 2).',
+  design='5/C05'),
 }
 NA_REASON = {
  'C19': 'Agreement with a recursive merge model over (document, text) pairs; no structural clause that is a necessary condition without mirroring the handler code (DESIGN.md section 7).',
